@@ -136,11 +136,13 @@ pub proof fn lemma_scan(pre: Seq<char>, x: Seq<char>, post: Seq<char>)
     ensures jscan(pre + sesc(x) + seq!['"'] + post, pre.len() as int) == Some((x, (pre.len() + sesc(x).len() + 1) as int)),
     decreases x.len()
 {
+    hide(jscan);
     let s = pre + sesc(x) + seq!['"'] + post;
     let i = pre.len() as int;
     if x.len() == 0 {
         assert(sesc(x) =~= Seq::<char>::empty());
         assert(s[i] == '"');
+        lemma_jscan_quote(s, i);
     } else {
         let c = x[0];
         let rest = x.skip(1);
@@ -153,28 +155,35 @@ pub proof fn lemma_scan(pre: Seq<char>, x: Seq<char>, post: Seq<char>)
         assert(forall|k: int| 0 <= k < e.len() ==> s[i + k] == e[k]);
         if c == '"' || c == '\\' {
             assert(s[i] == '\\' && s[i + 1] == c);
+            lemma_jscan_pair(s, i);
         } else if c == '<' {
             assert(s[i] == '\\' && s[i + 1] == 'u' && s[i + 2] == '0' && s[i + 3] == '0' && s[i + 4] == '3' && s[i + 5] == 'C');
             assert(hex_val('3') == Some(3int) && hex_val('C') == Some(12int) && hex_val('0') == Some(0int));
             assert((0 * 4096 + 0 * 256 + 3 * 16 + 12) as char == '<');
+            lemma_jscan_u(s, i, 0, 0, 3, 12);
         } else if c == '\u{2028}' {
             assert(s[i] == '\\' && s[i + 1] == 'u' && s[i + 2] == '2' && s[i + 3] == '0' && s[i + 4] == '2' && s[i + 5] == '8');
             assert(hex_val('2') == Some(2int) && hex_val('8') == Some(8int) && hex_val('0') == Some(0int));
             assert((2 * 4096 + 0 * 256 + 2 * 16 + 8) as char == '\u{2028}');
+            lemma_jscan_u(s, i, 2, 0, 2, 8);
         } else if c == '\u{2029}' {
             assert(s[i] == '\\' && s[i + 1] == 'u' && s[i + 2] == '2' && s[i + 3] == '0' && s[i + 4] == '2' && s[i + 5] == '9');
             assert(hex_val('2') == Some(2int) && hex_val('9') == Some(9int) && hex_val('0') == Some(0int));
             assert((2 * 4096 + 0 * 256 + 2 * 16 + 9) as char == '\u{2029}');
+            lemma_jscan_u(s, i, 2, 0, 2, 9);
         } else if (c as int) < 0x20 {
             lemma_hex((c as int) / 16);
             lemma_hex((c as int) % 16);
             assert(s[i] == '\\' && s[i + 1] == 'u' && s[i + 2] == '0' && s[i + 3] == '0');
             assert(s[i + 4] == hex_digit_spec((c as int) / 16) && s[i + 5] == hex_digit_spec((c as int) % 16));
+            assert(hex_val('0') == Some(0int));
             let v = 0 * 4096 + 0 * 256 + ((c as int) / 16) * 16 + (c as int) % 16;
             assert(v == c as int);
             assert(v as char == c);
+            lemma_jscan_u(s, i, 0, 0, (c as int) / 16, (c as int) % 16);
         } else {
             assert(s[i] == c);
+            lemma_jscan_plain(s, i);
         }
     }
 }
@@ -206,6 +215,7 @@ pub proof fn lemma_elems(pre: Seq<char>, strs: Seq<Seq<char>>, k: int, n: int)
     ensures jelems(pre + jtail(strs, k, n), pre.len() as int) == Some(strs.subrange(k, n)),
     decreases n - k
 {
+    hide(jscan); hide(sesc); hide(junesc);
     let s = pre + jtail(strs, k, n);
     let i = pre.len() as int;
     let x = strs[k];
